@@ -40,7 +40,8 @@ func c08Schema() *z.StructSchema {
 		"n":  z.Struct(z.Schema{"x": z.Int().Required(), "y": z.String().Not().Contains("q")}),
 		"pN": z.Ptr(z.Struct(z.Schema{"x": z.Int()})).NotNil(),
 		"c":  z.CustomFunc(func(p *int, ctx z.Ctx) bool { return *p != 13 }),
-	}).TestFunc(func(p any, ctx z.Ctx) bool { return p.(*c08Dest).A != 99 })
+	}).TestFunc(func(p any, ctx z.Ctx) bool { return p.(*c08Dest).A != 99 }).
+		TestFunc(func(p any, ctx z.Ctx) bool { return false }, z.IssueCode("two_params"), z.Params(map[string]any{"lo": 1, "hi": 2, "mid": 3}))
 }
 
 func C08_Run(job string) {
